@@ -188,7 +188,11 @@ class Sym:
             else:
                 env.set(p, ('p', p))
         fr = _Frame(ctx, ('self',) if recv is not None else None, recv[1] if recv else None, 0)
-        self._exec(func.node.body, env, fr, collect_final=True)
+        self._linear = True  # merge environments at every join instead of splitting on returns / raises
+        try:
+            self._exec(func.node.body, env, fr, collect_final=True)
+        finally:
+            self._linear = False
         t = env.get(var)
         return normalise(t) if t is not None else opaque(f'<unbound {var}>')
 
@@ -212,17 +216,18 @@ class Sym:
             return BOTTOM
         return NONE_T
 
-    def _exec(self, stmts, env: _Env, fr: _Frame, collect_final=False):
-        """Execute a block.  Returns ('ret', term) | ('fall', None) | ('bottom', None) | ('cont', None) | ('break', None)."""
+    def _exec(self, stmts, env: _Env, fr: _Frame, cont=(), collect_final=False):
+        """Execute a block and then its continuation `cont` (statement lists of the enclosing blocks, innermost first).
+        Returns ('ret', term) | ('fall', None) [end of function reached] | ('bottom', None) | ('cont', None) | ('break', None)."""
         for i, st in enumerate(stmts):
-            r = self._exec_stmt(st, env, fr, stmts[i + 1:])
+            r = self._exec_stmt(st, env, fr, stmts[i + 1:], cont)
             if r is not None:
-                if r[0] == 'fall_done':
-                    return ('fall', None)
                 return r
+        if cont:
+            return self._exec(cont[0], env, fr, cont[1:])
         return ('fall', None)
 
-    def _exec_stmt(self, st, env: _Env, fr: _Frame, rest):
+    def _exec_stmt(self, st, env: _Env, fr: _Frame, rest, cont=()):
         if isinstance(st, ast.Expr):
             if isinstance(st.value, ast.Constant):
                 return None
@@ -268,7 +273,7 @@ class Sym:
         if isinstance(st, ast.Break):
             return ('break', None)
         if isinstance(st, ast.If):
-            return self._exec_if(st, env, fr, rest)
+            return self._exec_if(st, env, fr, rest, cont)
         if isinstance(st, (ast.For, ast.AsyncFor)):
             self._exec_for(st, env, fr)
             return None
@@ -281,43 +286,62 @@ class Sym:
             for item in st.items:
                 if item.optional_vars is not None:
                     self._assign(item.optional_vars, ('call', 'with', (self.ev(item.context_expr, env, fr),)), env, fr, None)
-            r = self._exec(st.body, env, fr)
-            return None if r[0] == 'fall' else r
+            if not self._has_escape(st.body):
+                self._exec(st.body, env, fr)
+                return None
+            return self._exec(st.body, env, fr, (rest,) + tuple(cont))
         if isinstance(st, ast.Try):
             # value semantics on the no-exception path; handlers that return make the result opaque
-            r = self._exec(st.body + st.orelse + st.finalbody, env, fr)
+            inner = st.body + st.orelse + st.finalbody
+            if not self._has_escape(inner) and not any(isinstance(n, ast.Return) for h in st.handlers for n in ast.walk(h)):
+                self._exec(inner, env, fr)
+                return None
+            r = self._exec(inner, env, fr, (rest,) + tuple(cont))
             if any(isinstance(n, ast.Return) for h in st.handlers for n in ast.walk(h)):
                 if r[0] == 'ret':
                     return ('ret', ('union', (r[1], opaque('<except-return>'))))
-            return None if r[0] == 'fall' else r
+            return r
         return None
 
-    def _exec_if(self, st: ast.If, env: _Env, fr: _Frame, rest):
+    def _has_escape(self, stmts) -> bool:
+        """The block contains a statement that leaves it other than by falling through (own level, nested defs excluded)."""
+        if getattr(self, '_linear', False):
+            return False
+
+        def walk(n):
+            if isinstance(n, (ast.Return, ast.Raise, ast.Continue, ast.Break)):
+                return True
+            if isinstance(n, (ast.FunctionDef, ast.AsyncFunctionDef, ast.Lambda, ast.ClassDef)):
+                return False
+            return any(walk(c) for c in ast.iter_child_nodes(n))
+        return any(walk(s) for s in stmts)
+
+    def _exec_if(self, st: ast.If, env: _Env, fr: _Frame, rest, cont=()):
         c = self.ev_cond(st.test, env, fr)
-        if c == lit(True):
-            return self._exec_nonfall(st.body, env, fr)
-        if c == lit(False):
-            return self._exec_nonfall(st.orelse, env, fr)
+        escaping = self._has_escape(st.body) or self._has_escape(st.orelse)
+        if c == lit(True) or c == lit(False):
+            branch = st.body if c == lit(True) else st.orelse
+            if not escaping:
+                self._exec(branch, env, fr)
+                return None
+            return self._exec(branch, env, fr, (rest,) + tuple(cont))
         env_a, env_b = env.copy(), env.copy()
-        ra = self._exec(st.body, env_a, fr)
-        rb = self._exec(st.orelse, env_b, fr)
-        if ra[0] == 'fall' and rb[0] == 'fall':
-            self._merge(env, c, env_a, env_b)
+        if not escaping:
+            # both branches fall through: merge the environments and go on linearly
+            ra = self._exec(st.body, env_a, fr)
+            rb = self._exec(st.orelse, env_b, fr)
+            if ra[0] in ('bottom', 'ret') and rb[0] not in ('bottom', 'ret'):
+                self._adopt(env, env_b)
+            elif rb[0] in ('bottom', 'ret') and ra[0] not in ('bottom', 'ret'):
+                self._adopt(env, env_a)
+            else:
+                self._merge(env, c, env_a, env_b)
             return None
-        # at least one branch does not fall through: evaluate the continuation separately for the other(s)
-
-        def finish(r, e):
-            if r[0] != 'fall':
-                return r
-            return self._exec(rest, e, fr)
-
-        fa = finish(ra, env_a)
-        fb = finish(rb, env_b)
+        # a branch can leave the block: evaluate each branch together with everything that follows it
+        k = (rest,) + tuple(cont)
+        fa = self._exec(st.body, env_a, fr, k)
+        fb = self._exec(st.orelse, env_b, fr, k)
         return self._join_results(c, fa, fb, env, env_a, env_b)
-
-    def _exec_nonfall(self, stmts, env, fr):
-        r = self._exec(stmts, env, fr)
-        return None if r[0] == 'fall' else r
 
     def _join_results(self, c, fa, fb, env, env_a, env_b):
         ka, kb = fa[0], fb[0]
@@ -325,19 +349,19 @@ class Sym:
             return ('bottom', None)
         if ka == 'bottom':
             self._adopt(env, env_b)
-            return fb if kb != 'fall' else ('fall_done', None)
+            return fb
         if kb == 'bottom':
             self._adopt(env, env_a)
-            return fa if ka != 'fall' else ('fall_done', None)
+            return fa
         if ka == 'ret' and kb == 'ret':
             return ('ret', ('cond', c, fa[1], fb[1]))
-        if ka == 'ret' and kb in ('fall', 'fall_done'):
+        if ka == 'ret' and kb == 'fall':
             return ('ret', ('cond', c, fa[1], NONE_T))
-        if kb == 'ret' and ka in ('fall', 'fall_done'):
+        if kb == 'ret' and ka == 'fall':
             return ('ret', ('cond', c, NONE_T, fb[1]))
-        if {ka, kb} <= {'fall', 'fall_done'}:
+        if ka == 'fall' and kb == 'fall':
             self._merge(env, c, env_a, env_b)
-            return ('fall_done', None)
+            return ('fall', None)
         # loop control (cont/break) mixed with other outcomes: handled by the loop summariser via guards
         return ('mixed', (c, fa, fb, env_a, env_b))
 
@@ -909,7 +933,10 @@ class Sym:
                 return ('call', 'apply', (v,) + tuple(args))
             return self._call_named(f.id, node, args, kwargs, env, fr)
         if isinstance(f, ast.Attribute):
-            recv = self.ev(f.value, env, fr)
+            if isinstance(f.value, ast.Call) and isinstance(f.value.func, ast.Name) and f.value.func.id == 'super' and fr.self_term is not None:
+                recv = fr.self_term  # super().m(...) runs on the same object
+            else:
+                recv = self.ev(f.value, env, fr)
             return self._call_method(recv, f.attr, node, args, kwargs, env, fr)
         return ('call', 'apply', (self.ev(f, env, fr),) + tuple(args))
 
@@ -1161,6 +1188,8 @@ def dag_nodes(t) -> List[tuple]:
 
 
 def normalise(t):
+    # canonical bound-variable names first: two evaluations of the same code must compare equal during rewriting
+    t = intern_term(_alpha(t))
     memo = {}
     keep = []
 
@@ -1257,7 +1286,13 @@ def _norm1(t):
         if c[0] == 'not':
             return ('cond', c[1], b, a)
         if c[0] == 'cmp' and c[1] in ('IsNot', 'NotEq', 'NotIn'):
-            return ('cond', ('cmp', {'IsNot': 'Is', 'NotEq': 'Eq', 'NotIn': 'In'}[c[1]], c[2], c[3]), b, a)
+            return _norm1(('cond', ('cmp', {'IsNot': 'Is', 'NotEq': 'Eq', 'NotIn': 'In'}[c[1]], c[2], c[3]), b, a))
+        # if c: (if d: X else Y) else Y   ==   if c and d: X else Y
+        if a[0] == 'cond' and (a[3] is b or a[3] == b):
+            return _norm1(('cond', _norm1(('and', (c, a[1]))), a[2], b))
+        # if c: X else (if d: X else Y)   ==   if c or d: X else Y
+        if b[0] == 'cond' and (b[2] is a or b[2] == a):
+            return _norm1(('cond', _norm1(('or', (c, b[1]))), a, b[3]))
         return t
     if k == 'slice':
         if t[2] == ('lit', 0):
@@ -1303,6 +1338,9 @@ def _norm1(t):
             else:
                 parts.append(p)
         unit = ('lit', k == 'and')
+        zero = ('lit', k != 'and')
+        if any(p == zero for p in parts):
+            return zero
         parts = [p for p in parts if p != unit]
         if not parts:
             return unit
@@ -1540,6 +1578,8 @@ def _pretty(t, names, top=False) -> str:
         return f'Opaque<{t[1][:40]}>'
     if k == 'kw':
         return f'{t[1]}={pretty(t[2])}'
+    if k == 'new' and len(t) < 4:
+        return f'new {t[1]}(...)'
     if k == 'new':
         return f'new {t[1]}(' + ', '.join(pretty(x) for x in t[2]) + ''.join(f', {a}={pretty(b)}' for a, b in t[3]) + ')'
     if k == 'bottom':
